@@ -35,6 +35,7 @@ import Mathlib.Algebra.BigOperators.Group.List.Lemmas
 import Mathlib.Analysis.SpecialFunctions.Trigonometric.Inverse
 import Mathlib.Analysis.SpecialFunctions.Pow.Real
 import UxVerif.Model.Remap
+import UxVerif.Gen.Defaults
 
 namespace UxVerif.C12
 open UxVerif UxVerif.Remap
@@ -818,5 +819,20 @@ theorem chord_le_iff_arc_le (q p₁ p₂ : ℝ × ℝ × ℝ) (hq : dot3 q q = 1
 example : chordSq ((1 : ℝ), (0 : ℝ), (0 : ℝ)) (0, 1, 0) ≤ chordSq ((1 : ℝ), (0 : ℝ), (0 : ℝ)) (0, 0, 1) ↔
     Real.arccos (dot3 ((1 : ℝ), (0 : ℝ), (0 : ℝ)) (0, 1, 0)) ≤ Real.arccos (dot3 ((1 : ℝ), (0 : ℝ), (0 : ℝ)) (0, 0, 1)) :=
   chord_le_iff_arc_le _ _ _ (by simp [dot3]) (by simp [dot3]) (by simp [dot3])
+
+/-! ### the default arguments (regenerated from `inspect.signature` on every run) -/
+
+/-- the default `k` passes the guard on every source with at least that many elements, the default
+    `power` is a natural number (so `natPow_ok` applies and the convexity theorems cover the
+    default call), and both remappers default to the same destination and coordinate type. -/
+theorem idw_defaults_admissible :
+    (∀ nSrc : Nat, Gen.Defaults.idw_k.toNat ≤ nSrc → kAdmissible Gen.Defaults.idw_k.toNat nSrc = true) ∧
+    0 ≤ Gen.Defaults.idw_power ∧ 2 ≤ Gen.Defaults.idw_k ∧
+    Gen.Defaults.idw_remap_to = Gen.Defaults.nn_remap_to ∧
+    Gen.Defaults.idw_coord_type = Gen.Defaults.nn_coord_type := by
+  refine ⟨?_, by decide, by decide, by decide, by decide⟩
+  intro nSrc h
+  rw [k_guard]
+  exact ⟨by decide, h⟩
 
 end UxVerif.C12
